@@ -22,10 +22,13 @@ type envEv struct {
 	PayloadMap bool    `json:"payloadMap"` // the payload bytes are a single CBOR map
 	PayloadTag bool    `json:"payloadTag"` // the payload bytes are a single tagged item (left open: no verdict)
 	MinimalTag bool    `json:"minimalTag"`
-	Dec1       bool    `json:"dec1"`   // DecodeEvidenceFromCOSE succeeded
-	Dec2       bool    `json:"dec2"`   // Evidence.UnmarshalCOSE succeeded
-	Claims     bool    `json:"claims"` // claims attached after success
-	Pan        bool    `json:"panicked"`
+	Dec1       bool    `json:"dec1"` // DecodeEvidenceFromCOSE succeeded
+	Dec2       bool    `json:"dec2"` // Evidence.UnmarshalCOSE succeeded
+	// UnmarshalCOSE on ONE Evidence value reused for the whole run, the input lying in ONE caller buffer reused for the
+	// whole run, right after that Evidence decoded the canonical envelope from the very same buffer
+	Dec3   bool `json:"dec3"`
+	Claims bool `json:"claims"` // claims attached after success
+	Pan    bool `json:"panicked"`
 	// after the call: the canonical envelope still decodes and one whose payload holds CBOR null is still refused
 	// (what is evidence does not depend on what was presented before)
 	ProbeOK bool `json:"probeOK"`
@@ -147,6 +150,7 @@ func init() {
 		t := NewTracer(a.Out)
 		b := 0
 		var probeGood, probeNull []byte
+		reusedEv, reusedBuf := &psatoken.Evidence{}, make([]byte, 1<<16)
 		present := func(kind string, tok []byte) {
 			ev := envEv{B: b, Op: "Envelope", Kind: kind, TI: w.absToken(tok), MinimalTag: true}
 			if n, _, err := cborx.ParseFirst(tok); err == nil && n.Major == 6 {
@@ -169,6 +173,18 @@ func init() {
 				ev.Dec2 = e2.UnmarshalCOSE(append([]byte{}, tok...)) == nil
 				ev.Claims = ev.Dec1 && e1.Claims != nil
 			})
+			ev.Dec3 = ev.Dec2
+			if probeGood != nil && len(tok) <= len(reusedBuf) {
+				safely(func() {
+					ev.Dec3 = false
+					copy(reusedBuf, probeGood)
+					if err := reusedEv.UnmarshalCOSE(reusedBuf[:len(probeGood)]); err != nil {
+						fatal("the reused Evidence refuses the canonical envelope: %v", err)
+					}
+					copy(reusedBuf, tok) // the caller recycles its buffer
+					ev.Dec3 = reusedEv.UnmarshalCOSE(reusedBuf[:len(tok)]) == nil
+				})
+			}
 			ev.ProbeOK = true
 			if probeGood != nil {
 				safely(func() {
@@ -200,6 +216,32 @@ func init() {
 		probeGood = build(18, -1, std, nil)
 		probeNull = build(18, -1, []string{"bstr-prot", "map-empty", "payload-null", "bstr-sig"}, nil)
 		present("canonical", build(18, -1, std, nil))
+		// in-place edits of the canonical envelope (same length): the tag, the array head and every element head become
+		// something else - Mac0 / Sign tags, other array lengths, other major types, null, an empty signature ...
+		{
+			heads := map[int]bool{}
+			if n, _, err := cborx.ParseFirst(probeGood); err == nil && n.Major == 6 && len(n.Items) == 1 {
+				heads[0] = true
+				arr := n.Items[0]
+				heads[arr.Start] = true
+				for _, it := range arr.Items {
+					heads[it.Start] = true
+				}
+			}
+			for i := 0; i < len(probeGood); i++ {
+				if !heads[i] && i > 12 && i < len(probeGood)-2 {
+					continue
+				}
+				for _, v := range []byte{0x00, 0x40, 0x58, 0x60, 0x80, 0x83, 0x84, 0x85, 0xa0, 0xd1, 0xd2, 0xd8, 0xf6, 0xf7, probeGood[i] ^ 0x01, probeGood[i] ^ 0x20, probeGood[i] ^ 0xe0} {
+					if v == probeGood[i] {
+						continue
+					}
+					x := append([]byte{}, probeGood...)
+					x[i] = v
+					present("inplace", x)
+				}
+			}
+		}
 		// every tag 0..30 and none, also in non-minimal encodings
 		for tag := -1; tag <= 30; tag++ {
 			present("tag", build(tag, -1, std, nil))
